@@ -2,7 +2,7 @@
    Only ExtrOcamlBasic is used: bool, option, unit, list, prod, sumbool map to
    OCaml's; positive/N/Z/nat stay the extracted inductive types. *)
 From Coq Require Extraction ExtrOcamlBasic.
-From PV Require Import Base.Common Model.LabelScope Model.Syntax Model.VarScope Proofs.VarScopeProofs Base.IR Model.Lower Model.Sem Model.Expand Model.Header Model.Containers Model.Layout Model.Literal Gen.Linkage Base.Tok Model.LexAlpha Model.LexDelta Model.Cli Model.RefParser Model.Resolve Model.Cfg Model.Mutability Model.DeltaNodes Model.TypeLegal.
+From PV Require Import Base.Common Model.LabelScope Model.Syntax Model.VarScope Proofs.VarScopeProofs Base.IR Model.Lower Model.Sem Model.Expand Model.Header Model.Containers Model.Layout Model.Literal Gen.Linkage Base.Tok Model.LexAlpha Model.LexDelta Model.Cli Model.RefParser Model.Resolve Model.Cfg Model.Mutability Model.DeltaNodes Model.TypeLegal Proofs.ResolveProofs.
 
 Extraction Language OCaml.
 Separate Extraction
@@ -20,6 +20,7 @@ Separate Extraction
   Cli.backend_for Cli.tool_succeeds Cli.invokes_backend Cli.ll_files_written
   RefParser.parse_module RefParser.print_module RefParser.show_module RefParser.wf_module RefParser.toks_ok RefParser.mk
   Resolve.resolve_expr Resolve.resolve_cmp Resolve.check_call
+  ResolveProofs.binop_class ResolveProofs.unop_class ResolveProofs.cmpop_class ResolveProofs.conversion_spec
   Cfg.lower_body Cfg.cfg_view Cfg.cfg_wfb Cfg.accepted
   Mutability.mut_program Mutability.mut_decl Mutability.mut_stmt Mutability.mut_expr
   Mutability.check_assignment Mutability.check_address_taken Mutability.use_variable Mutability.uv_codes
